@@ -106,7 +106,7 @@ def _nf(src: str, other: str, key: str) -> str:
     helpers = {k: v[0] for k, v in ft.items() if k not in oft}
     consts = {k: v for k, v in ct.items() if k not in oct_}
     node, _, cls = ft[key]
-    return equiv.normal_form(node, equiv.Ctx(helpers, consts, cls, set()))
+    return equiv.normal_form(node, equiv.Ctx(helpers, consts, cls, set(ft)))
 
 
 def run() -> Dict[str, object]:
